@@ -340,6 +340,11 @@ func runC24(c *Ctx) []Obligation {
 			Assume: []Lit{T(`^` + kP + `GetApplication\(k, ctx, application\.Address\)#1$`), F(`^\(x/apps/types\.Application\)\.IsStaked\(` + kP + `GetApplication\(k, ctx, application\.Address\)#0\)$`), F(`^\(x/apps/types\.Application\)\.IsUnstaked\(` + kP + `GetApplication\(k, ctx, application\.Address\)#0\)$`)},
 			Target: Success(), Why: "an application that is unstaking cannot be staked again before its stake was returned"},
 	})...)
+	// the sweep only sees what the queue lists: nothing but finishing (or a forced unstake) takes an entry out
+	out = append(out,
+		c.whoMayCall(P, "queue.node-removers", "(x/nodes/keeper.Keeper).deleteUnstakingValidator", []string{kN + `(FinishUnstakingValidator|LegacyForceValidatorUnstake)`}, "an unstaking node stays queued until its stake is returned or burned"),
+		c.whoMayCall(P, "queue.app-removers", "(x/apps/keeper.Keeper).deleteUnstakingApplication", []string{kP + `(FinishUnstakingApplication|ForceApplicationUnstake)`}, "an unstaking application stays queued until its stake is returned or burned"),
+	)
 	// "when due": the sweeps run at the end of every block, unconditionally
 	out = append(out, c.hookRowsEnd(P)...)
 	return out
@@ -420,6 +425,8 @@ func runC21(c *Ctx) []Obligation {
 		c.whoMayCall(P, "chainindex.writers", "(x/nodes/keeper.Keeper).SetStakedValidatorByChains", []string{kN + `(StakeValidator|EditStakeValidator)`, `x/nodes\.InitGenesis`}, "the per-chain index is written only on stake, edit-stake and genesis"),
 		c.whoMayCall(P, "powerindex.deleters", "(x/nodes/keeper.Keeper).deleteValidatorFromStakingSet", []string{kN + `(removeValidatorTokens|EditStakeValidator|JailValidator|BeginUnstakingValidator|LegacyForceValidatorUnstake)`}, "power-index entries are deleted only by the functions that re-key"),
 		c.whoMayCall(P, "chainindex.deleters", "(x/nodes/keeper.Keeper).deleteValidatorForChains", []string{kN + `(EditStakeValidator|BeginUnstakingValidator|LegacyForceValidatorUnstake)`}, "per-chain entries are deleted only on edit and on leaving the staked state"),
+		c.whoMayCall(P, "queue.removers", "(x/nodes/keeper.Keeper).deleteUnstakingValidator", []string{kN + `(FinishUnstakingValidator|LegacyForceValidatorUnstake)`}, "a node leaves the unstaking queue only when its unstaking finishes or it is force-unstaked: while the record says unstaking, the queue lists it"),
+		c.whoMayCall(P, "queue.slot-removers", "(x/nodes/keeper.Keeper).deleteUnstakingValidators", []string{kN + `deleteUnstakingValidator`}, "a whole completion-time slot is dropped only when removing its last entry empties it"),
 		c.origCopyBeforeMutation(P),
 	)
 	return out
